@@ -293,9 +293,16 @@ class SaveCrashScenario(PersistScenario):
             rec.check()
             opened = [e for e in journal if e[3] == dest and e[2] in ("open", "create", "truncate", "write", "replace", "remove")
                       and not (e[2] == "open" and e[4] in ("rb", "r"))]
-            if what == "out-of-domain-value" and err is None and after != P:
+            if err is None and what != "out-of-domain-value":
+                # the statement protects the destination *if serialisation fails*: this save returned normally (the library
+                # found another way: a cached key, an option it ignores...), so the premise does not hold
+                rec.probe("faulted-save-returned-normally:" + label)
+            elif what == "out-of-domain-value" and err is None and after != P and secrets:
+                rec.probe("out-of-domain-value-saved:with-secrets")      # loading it back needs this session's key-file layout: no claim
+            elif what == "out-of-domain-value" and err is None and after != P:
                 # the save went through: then what it wrote must load back (the other half of the statement)
-                fresh = st.B.root()
+                kw = {"key_filename": st.h["root_key"]} if st.h.get("root_key") else {}
+                fresh = st.B.root(**kw)
                 _, lerr = self._call(lambda: fresh.load(fname, use_fmt) if not use_opts else fresh.loads(after, use_fmt, **{k: v for k, v in use_opts.items() if k != "pretty"}))
                 if lerr is not None:
                     rec.fail("C19/success", "C19/successful-save-does-not-load-back/%s" % fmt,
